@@ -25,10 +25,12 @@ TRUSTED = [
     "the harness parses label strings ('A12' -> LA 12) and base-structure strings by a regular expression",
 ]
 ASSUMES = [
-    "password accepted by the input filter (non-empty)",
-    "C05_tiling / C05_sound_*: every character of the password has a lower() of length 1 (false exactly for U+0130 on this "
-    "interpreter, see lower_expanding in gen/Unicode_gen.v) and isalpha/isdigit agree between c and lower(c)",
-    "multi-word detector state = any state reachable by train() from the empty detector",
+    "password accepted by the input filter (non-empty); the theorems hold for every string over the pool table + default class",
+    "oracle facts, proved by computation over the regenerated table (C05_unicode_good): str.lower() of a character is never empty, "
+    "and when it is one character it has the class (isalpha/isdigit) of the original",
+    "multi-word detector state: ANY finite map word -> count (a superset of the states reachable by train())",
+    "side conditions on regenerated constants (proved in Props/C05.v): min_keyboard_run >= 4, every TLD non-empty, year prefixes of "
+    "length 2, multi-word min_len >= 1, the three detectors search the length-preserving lower-casing",
 ]
 
 LABEL_RE = re.compile(r"^(?:([KADO])(\d+)|(E)|(W)|(Y)1|(X)1)$")
@@ -463,7 +465,9 @@ def run(ctx):
                             % (w, n, mw._get_count(w)), "replay": {"pre": pre, "hist": hist, "pws": [w]}})
         chosen, seen_here = [], set()
         for i in range(n_per_hist):
-            if rng.random() < 0.12:
+            if h == 0 and i < len(seg_gen.FIXED):
+                pws, fams = [seg_gen.FIXED[i]], ["fixed"]
+            elif rng.random() < 0.12:
                 pws = [seg_gen.gen_string(rng)[0] for _ in range(rng.choice([2, 3, 4]))]
                 fams = ["sequence"]
             else:
@@ -491,7 +495,8 @@ def run(ctx):
             shapes_all.add(shape)
             if len(kinds) >= 2:
                 nontrivial_shapes.add(shape)
-            if (first or (shape not in seen_here and rng.random() < 0.3) or rng.random() < 0.01) and len(chosen) < coq_per_hist:
+            if (first or fams == ["fixed"] or (shape not in seen_here and rng.random() < 0.3) or rng.random() < 0.01) \
+                    and len(chosen) < coq_per_hist:
                 seen_here.add(shape)
                 chosen.append((pws, secs, counters))
                 if len(samples) < 5 and len(kinds) >= 3:
@@ -510,7 +515,16 @@ def run(ctx):
             shards.append((name, shard_source([(pre, hist)], cases[s0:s0 + 400])))
             shard_cases[name] = meta[s0:s0 + 400]
     corr.append(("unicode-facts:generated-strings-within-pool-and-lower-charwise", facts_ok, ""))
+    # negative control: one deliberately wrong expectation must be reported as a mismatch
+    mw0 = make_detector([], [], kw)
+    csecs, ccnt, _ = run_impl(mw0, ["a1"])
+    shards.append(("zz_control", shard_source([([], [])], [
+        "CParse 0%%nat %s [%s] %s" % (cstrs(["a1"]), csections(csecs[0]), ccounters(ccnt)),
+        "CParse 0%%nat %s [%s] %s" % (cstrs(["a1"]), csections([("a1", "A2")]), ccounters(ccnt))])))
     for name, idx, log in common.run_case_shards("C05", shards):
+        if name == "zz_control":
+            corr.append(("control:a-wrong-expectation-is-reported", idx == [1], "" if idx == [1] else "control shard answered %r: %s" % (idx, log[-300:])))
+            continue
         if idx is None:
             corr.append(("parse:" + name, False, log[-800:]))
         elif idx:
@@ -525,7 +539,41 @@ def run(ctx):
             "list(s); non-trivial = at least two different label kinds (two detectors fired)" % n_hist)
     dist["distinct_shapes"] = len(shapes_all)
     return {"evaluations": evaluations, "distinct_nontrivial": len(nontrivial_shapes), "rule": rule, "samples": samples,
-            "dist": dict(dist), "corr": corr, "violations": dedup(vio)}
+            "dist": dict(dist), "corr": corr, "violations": [shrink(ctx, v) for v in dedup(vio)]}
+
+
+def shrink(ctx, v):
+    """delete characters / history entries while the same signature is reported"""
+    rp = dict(v["replay"])
+    if len(rp.get("pws", [])) != 1:
+        return v
+
+    def hits(r):
+        try:
+            return [w for w in replay(ctx, {"input": r}) if w["sig"] == v["sig"]]
+        except Exception:   # noqa: BLE001
+            return []
+    best = v
+    if rp.get("hist") or rp.get("pre"):
+        h = hits(dict(rp, hist=[], pre=[]))
+        if h:
+            rp = dict(rp, hist=[], pre=[])
+            best = h[0]
+    changed = True
+    while changed:
+        changed = False
+        s = rp["pws"][0]
+        for i in range(len(s)):
+            t = s[:i] + s[i + 1:]
+            if not t:
+                continue
+            h = hits(dict(rp, pws=[t]))
+            if h:
+                rp = dict(rp, pws=[t])
+                best = h[0]
+                changed = True
+                break
+    return best
 
 
 def dedup(vio):
